@@ -6,6 +6,7 @@ import (
 	"errors"
 	"fmt"
 	"net/http"
+	"os"
 	"runtime"
 	"strconv"
 	"strings"
@@ -58,6 +59,9 @@ type schedRun struct {
 	loadPlan  string                         // what the next store.Get should do
 	savePlan  bool
 	delPlan   bool
+	newGate   bool          // stop threads at "entry.new" (inside the shard's get-or-create)
+	delGate   chan struct{} // when set, store.Delete announces itself on delAt and waits here
+	delAt     chan struct{}
 	blocked   bool
 	entryIdx  map[interface{}]int
 	lastLoads map[int]string
@@ -86,6 +90,9 @@ func (r *schedRun) gate(point string, entry interface{}) {
 	if t == nil {
 		return // not one of ours (controller calls)
 	}
+	if point == "entry.new" && !r.newGate {
+		return // only the arriveRace step stops threads inside the dispatcher's get-or-create
+	}
 	if entry != nil && t.entry == nil {
 		t.entry = entry // written once, at the thread's first stop, while the controller awaits it
 	}
@@ -104,6 +111,20 @@ func (r *schedRun) rel(t *schedThread) {
 	case <-time.After(schedWatchdog):
 		r.blocked = true
 		t.pos = "BLOCKED"
+	}
+}
+
+// a call of the controller itself into pike (purge, restart): must return; a call that does not is BLOCKED
+func (r *schedRun) ctl(f func()) {
+	done := make(chan struct{})
+	go func() {
+		defer close(done)
+		f()
+	}()
+	select {
+	case <-done:
+	case <-time.After(schedWatchdog):
+		r.blocked = true
 	}
 }
 
@@ -174,12 +195,18 @@ func suiteSched(r *rng, n int) {
 	}
 	defer func() { cache.VerifHook = nil }()
 	// directed schedules first (minimised past failures and hand-written corner cases)
+	// a schedule that ends with a stranded goroutine costs a watchdog period; a few of them are evidence enough
+	blockedRuns := 0
 	for i, sc := range directedSchedules {
-		runSchedule(r.fork(uint64(900000+i)), 900000+i, sc)
+		if runSchedule(r.fork(uint64(900000+i)), 900000+i, sc) {
+			blockedRuns++
+		}
 		flush()
 	}
-	for seq := 0; seq < n; seq++ {
-		runSchedule(r.fork(uint64(seq)), seq, nil)
+	for seq := 0; seq < n && blockedRuns < 4; seq++ {
+		if runSchedule(r.fork(uint64(seq)), seq, nil) {
+			blockedRuns++
+		}
 		flush()
 	}
 }
@@ -194,6 +221,14 @@ var directedSchedules = [][]string{
 	{"store:0", "arrive:0", "get:0", "upEnd:0:cacheable:1", "complete:0", "saved:0:1", "tick:1", "arrive:0", "get:1", "tick:1", "age:1"},
 	// purge racing an in-flight fetch with waiters; next request refetches
 	{"store:1", "arrive:0", "arrive:0", "get:0", "get:1", "purge:0:1", "arrive:0", "get:2", "park:1", "upEnd:0:cacheable:60", "complete:0", "saved:0:1", "resume:1", "age:1", "upEnd:2:cacheable:60", "complete:2", "saved:2:1"},
+	// purge held in its store delete while a request for the key arrives: the request sees neither the entry nor the record
+	{"store:1", "arrive:0", "get:0:honest", "upEnd:0:cacheable:60", "complete:0", "saved:0:1", "purgeRace:0", "get:1:honest", "upEnd:1:cacheable:60", "complete:1", "saved:1:1", "arrive:0", "get:2:honest", "age:2"},
+	// the same after a restart (entry only in the store)
+	{"store:1", "arrive:0", "get:0:honest", "upEnd:0:cacheable:60", "complete:0", "saved:0:1", "crash", "purgeRace:0", "get:1:honest", "upEnd:1:cacheable:60", "complete:1", "saved:1:1"},
+	// two requests racing through the dispatcher's get-or-create for a cold key: one entry, one fetch
+	{"store:0", "arriveRace:0", "get:0", "get:1", "park:1", "upEnd:0:cacheable:60", "complete:0", "saved:0:1", "resume:1", "age:1"},
+	// the same for a key made cold again by a purge
+	{"store:1", "arrive:0", "get:0:honest", "upEnd:0:cacheable:60", "complete:0", "saved:0:1", "purge:0:1", "arriveRace:0", "get:1:honest", "get:2:honest", "park:2", "upEnd:1:cacheable:60", "complete:1", "saved:1:1", "resume:2", "age:2"},
 	// hit-for-pass lapse: single prober, others wait
 	{"store:0", "hfp:2s", "arrive:0", "get:0", "upEnd:0:error:1", "complete:0", "saved:0:1", "tick:1", "arrive:0", "get:1", "tick:2", "arrive:0", "arrive:0", "get:2", "get:3", "park:3", "upEnd:1:nostore:1", "upEnd:2:cacheable:3", "complete:2", "saved:2:1", "resume:3", "age:3"},
 	// restart: served from the store with Age continuing, then past the original expiry
@@ -205,7 +240,7 @@ var directedSchedules = [][]string{
 		"arrive:0", "get:3:mutate", "upEnd:3:error:1", "complete:3", "saved:3:0", "crash", "arrive:0", "get:4:honest"},
 }
 
-func runSchedule(cr *rng, seq int, script []string) {
+func runSchedule(cr *rng, seq int, script []string) (blocked bool) {
 	withStore := cr.chance(60)
 	hfp := []string{"300s", "2s", "0s"}[cr.intn(3)]
 	for len(script) > 0 && (strings.HasPrefix(script[0], "store:") || strings.HasPrefix(script[0], "hfp:")) {
@@ -253,6 +288,12 @@ func runSchedule(cr *rng, seq int, script []string) {
 				return errors.New("store write failed")
 			}
 			return nil
+		}
+		p.store.preDel = func(key string) {
+			if g := run.delGate; g != nil {
+				run.delAt <- struct{}{}
+				<-g
+			}
 		}
 		p.store.onDel = func(key string) error {
 			if !run.delPlan {
@@ -322,6 +363,29 @@ func runSchedule(cr *rng, seq int, script []string) {
 			emit("sched", "send", idOf(c), idOf(u), "=>", posLine(u))
 		}
 	}
+	startThread := func(t *schedThread) {
+		run.threads = append(run.threads, t)
+		started := make(chan struct{})
+		go func() {
+			run.mu.Lock()
+			run.byGoid[goid()] = t
+			run.mu.Unlock()
+			close(started)
+			res := "panic"
+			func() {
+				defer func() {
+					if rec := recover(); rec != nil {
+						res = "panic"
+					}
+				}()
+				w := p.do(t.method, "s.test", schedKeyURI(t.key), http.Header{}, nil)
+				res = w.Header().Get("X-Status") + "|" + w.Header().Get("Age") + "|" + w.Body.String() + "|" + itoa(int64(w.Code))
+			}()
+			t.result = res
+			t.report <- "finished"
+		}()
+		<-started
+	}
 	finish := func(t *schedThread) {
 		p := run.await(t)
 		if p != "BLOCKED" && !strings.HasPrefix(p, "finished") {
@@ -378,7 +442,7 @@ func runSchedule(cr *rng, seq int, script []string) {
 		if script != nil {
 			sp = strings.Split(script[step], ":")
 			a = action{name: sp[0]}
-			if sp[0] != "arrive" && sp[0] != "tick" && sp[0] != "purge" && sp[0] != "crash" {
+			if sp[0] != "arrive" && sp[0] != "tick" && sp[0] != "purge" && sp[0] != "purgeRace" && sp[0] != "arriveRace" && sp[0] != "crash" {
 				ti, _ := strconv.Atoi(sp[1])
 				if ti >= len(run.threads) {
 					emit("sched", "script-error", script[step])
@@ -403,27 +467,7 @@ func runSchedule(cr *rng, seq int, script []string) {
 				t.key, _ = strconv.Atoi(arg(1, "0"))
 				t.method = "GET"
 			}
-			run.threads = append(run.threads, t)
-			started := make(chan struct{})
-			go func() {
-				run.mu.Lock()
-				run.byGoid[goid()] = t
-				run.mu.Unlock()
-				close(started)
-				res := "panic"
-				func() {
-					defer func() {
-						if rec := recover(); rec != nil {
-							res = "panic"
-						}
-					}()
-					w := p.do(t.method, "s.test", schedKeyURI(t.key), http.Header{}, nil)
-					res = w.Header().Get("X-Status") + "|" + w.Header().Get("Age") + "|" + w.Body.String() + "|" + itoa(int64(w.Code))
-				}()
-				t.result = res
-				t.report <- "finished"
-			}()
-			<-started
+			startThread(t)
 			run.await(t)
 			emit("sched", "arrive", idOf(t), itoa(int64(t.key)), hx(t.method), "=>", posLine(t), itoa(int64(run.eidx(t.entry))))
 		case "get":
@@ -510,12 +554,116 @@ func runSchedule(cr *rng, seq int, script []string) {
 				k, _ = strconv.Atoi(arg(1, "0"))
 				run.delPlan = arg(2, "1") == "1"
 			}
-			cache.RemoveHTTPCache("c1", []byte("GET s.test "+schedKeyURI(k)))
+			// half of the random purges go through the admin server's endpoint, as an operator's would
+			viaAdmin := sp == nil && cr.chance(50)
+			run.ctl(func() {
+				if viaAdmin {
+					if code, err := adminPurge("c1", "GET s.test "+schedKeyURI(k)); err != nil || code != 204 {
+						fmt.Fprintf(os.Stderr, "admin purge: code=%d err=%v\n", code, err)
+						run.blocked = true
+					}
+					return
+				}
+				cache.RemoveHTTPCache("c1", []byte("GET s.test "+schedKeyURI(k)))
+			})
 			emit("sched", "purge", itoa(int64(k)), b2s(run.delPlan))
+		case "arriveRace":
+			// two requests for a key that is not resident, the first one held inside the dispatcher's
+			// get-or-create (where its entry is built): with the shard mutex held across lookup and insert
+			// the second cannot get past the dispatcher before the first has installed its entry
+			k, _ := strconv.Atoi(arg(1, "0"))
+			run.newGate = true
+			t1 := &schedThread{id: len(run.threads), key: k, method: "GET", report: make(chan string, 1), release: make(chan struct{}), pos: "running"}
+			startThread(t1)
+			run.await(t1)
+			t2 := &schedThread{id: len(run.threads), key: k, method: "GET", report: make(chan string, 1), release: make(chan struct{}), pos: "running"}
+			raced := t1.pos == "entry.new"
+			if raced {
+				startThread(t2)
+				select {
+				case p := <-t2.report:
+					t2.pos = p
+				case <-time.After(300 * time.Millisecond):
+				}
+			}
+			run.newGate = false
+			if raced {
+				run.rel(t1)
+				run.await(t1)
+			}
+			emit("sched", "arrive", idOf(t1), itoa(int64(t1.key)), hx(t1.method), "=>", posLine(t1), itoa(int64(run.eidx(t1.entry))))
+			if !raced {
+				// the key was resident (or the build has no hook inside the dispatcher): plain second arrival
+				startThread(t2)
+			}
+			if t2.pos == "entry.new" {
+				run.rel(t2)
+			}
+			if t2.pos == "entry.new" || t2.pos == "running" {
+				run.await(t2)
+			}
+			emit("sched", "arrive", idOf(t2), itoa(int64(t2.key)), hx(t2.method), "=>", posLine(t2), itoa(int64(run.eidx(t2.entry))))
+		case "purgeRace":
+			// a purge held inside its store delete while a request for the same key arrives: with the delete
+			// under the shard lock the request cannot look the key up before the purge is complete
+			k, _ := strconv.Atoi(arg(1, "0"))
+			run.delPlan = true
+			run.delGate, run.delAt = make(chan struct{}), make(chan struct{}, 1)
+			purged := make(chan struct{})
+			go func() {
+				cache.RemoveHTTPCache("c1", []byte("GET s.test "+schedKeyURI(k)))
+				close(purged)
+			}()
+			inDelete := true
+			select {
+			case <-run.delAt:
+			case <-purged:
+				inDelete = false // no store: nothing to hold
+			case <-time.After(schedWatchdog):
+				run.blocked = true
+			}
+			t := &schedThread{id: len(run.threads), key: k, method: "GET", report: make(chan string, 1), release: make(chan struct{}), pos: "running"}
+			startThread(t)
+			early := false
+			if inDelete && !run.blocked {
+				select {
+				case p := <-t.report:
+					t.pos, early = p, true
+				case <-time.After(300 * time.Millisecond):
+				}
+			}
+			emit("sched", "purge", itoa(int64(k)), "1")
+			if early {
+				// the request got in while the record is still in the store: let it look the key up now
+				emit("sched", "arrive", idOf(t), itoa(int64(t.key)), hx(t.method), "=>", posLine(t), itoa(int64(run.eidx(t.entry))))
+				run.loadPlan = "honest"
+				t.loadOut = "none"
+				run.rel(t)
+				run.await(t)
+				if t.pos == "get.registered" {
+					run.waiters[t.entry] = append(run.waiters[t.entry], t)
+				}
+				emit("sched", "get", idOf(t), hx(t.loadOut), "=>", posLine(t))
+			}
+			if inDelete {
+				close(run.delGate)
+				select {
+				case <-purged:
+				case <-time.After(schedWatchdog):
+					run.blocked = true
+				}
+			}
+			run.delGate = nil
+			if !early {
+				run.await(t)
+				emit("sched", "arrive", idOf(t), itoa(int64(t.key)), hx(t.method), "=>", posLine(t), itoa(int64(run.eidx(t.entry))))
+			}
 		case "crash":
 			// restart with the same store: every entry gone (no request is in flight here)
-			cache.ResetDispatchers(nil)
-			cache.ResetDispatchers([]config.CacheConfig{p.cacheCfg})
+			run.ctl(func() {
+				cache.ResetDispatchers(nil)
+				cache.ResetDispatchers([]config.CacheConfig{p.cacheCfg})
+			})
 			run.waiters = map[interface{}][]*schedThread{}
 			emit("sched", "crash")
 		}
@@ -608,6 +756,7 @@ func runSchedule(cr *rng, seq int, script []string) {
 		// goroutines are stranded in gates; do not reuse this process state for too long
 		time.Sleep(10 * time.Millisecond)
 	}
+	return run.blocked
 }
 
 func errNotFound() error { return storeErrNotFound }
